@@ -21,7 +21,7 @@ theorem construct_inv (d : Defaults) (p : Nat) (s : PSpec) (pt : Patcher) (h : c
 /-- all four conventions reach the replacement exactly once, with the caller's arguments after what the
     descriptor protocol puts in front, and return / raise what the replacement returns / raises -/
 theorem conv_installed (p n : Nat) (s : PSpec) (via : Via) (c : Conv) (args : List Nat) (kw : List (Nat × Nat))
-    (pre : List Nat) (hpre : expectedPrefix s.repl via = some pre) :
+    (pre : List Nat) (hpre : expectedPrefix s.repl via = some pre) (hm : s.modeExposed via = false) :
     conv (installedObj { spec := s, new := maybeWrapNew p s } p n) via c args kw =
       { out := s.behav.out,
         calls := [{ callee := expectedCallee p s (installedObj { spec := s, new := maybeWrapNew p s } p n).tok,
@@ -29,14 +29,38 @@ theorem conv_installed (p n : Nat) (s : PSpec) (via : Via) (c : Conv) (args : Li
   obtain ⟨t, repl, cr, an, vo, bh, sl, sh⟩ := s
   rcases repl with _ | _ | _ | _ | _ | _ | _ | _ | (_ | _) | (_ | _ | _) <;> cases via <;> cases c <;>
     simp_all [expectedPrefix, Repl.desc?, bindPrefix, installedObj, maybeWrapNew, freshObj, Shape.callable,
-      Repl.isCallable, Repl.acceptsAttrs, conv, invoke, expectedCallee, Obj.tok]
+      Repl.isCallable, Repl.acceptsAttrs, conv, invoke, expectedCallee, Obj.tok, Behav.outIn, PSpec.modeExposed,
+      pairAsyncioInMode]
+
+/-- a patcher that is `modeSafe` is not exposed on any target of the environment -/
+theorem modeSafe_not_exposed (env : Env) (s : PSpec) (t : Nat) (h : s.modeSafe env = true) :
+    s.modeExposed (env.tspec t).via = false := by
+  unfold PSpec.modeSafe at h
+  unfold PSpec.modeExposed
+  cases hms : (pairAsyncioInMode && (s.behav.modeSensitive && s.repl.desc?.isSome)) with
+  | false =>
+    cases hp : pairAsyncioInMode with
+    | false => simp
+    | true => rw [hp] at hms; simp only [Bool.true_and] at hms; simp [hms]
+  | true =>
+    simp only [hms, Bool.not_true, Bool.false_or] at h
+    have hv : (env.tspec t).via = .plain := by
+      unfold Env.tspec
+      by_cases ht : t < env.targets.length
+      · have hmem : env.targets[t] ∈ env.targets := List.getElem_mem ht
+        have := List.all_eq_true.1 h _ hmem
+        simp only [List.getD_eq_getElem?_getD, List.getElem?_eq_getElem ht, Option.getD_some]
+        simpa using this
+      · simp only [List.getD_eq_getElem?_getD, List.getElem?_eq_none (Nat.le_of_not_lt ht), Option.getD_none]
+    simp [hv]
 
 
 /-! ### the simulation relation -/
 
 structure Rel (env : Env) (w : Watch) (st : State) : Prop where
   specs : ∀ p, w.specs p = (st.patchers p).map (·.spec)
-  wf : ∀ p pt, st.patchers p = some pt → pt = { spec := pt.spec, new := maybeWrapNew p pt.spec }
+  wf : ∀ p pt, st.patchers p = some pt →
+    pt = { spec := pt.spec, new := maybeWrapNew p pt.spec } ∧ pt.spec.modeSafe env = true
   stack : w.stack = mapStk Obj.tok st.stack
   active : w.active = st.active
   skip : w.skip = st.skip
@@ -110,7 +134,7 @@ theorem step_skipping (env : Env) (w : Watch) (st : State) (op : Op) (h : Rel en
 
 
 theorem step_construct (env : Env) (w : Watch) (st : State) (p : Nat) (s : PSpec) (hc : s.constructible env.defaults = true)
-    (h : Rel env w st) (hsk : st.skip = none) :
+    (hm : s.modeSafe env = true) (h : Rel env w st) (hsk : st.skip = none) :
     ∃ w', watchStep env w (observe env st (.construct p s)).2 = .ok w' ∧
       Rel env w' (observe env st (.construct p s)).1 := by
   have hp := rel_peeks env w st h
@@ -143,6 +167,7 @@ theorem step_construct (env : Env) (w : Watch) (st : State) (p : Nat) (s : PSpec
       · simp only [upd, hq, if_false]; exact h.specs q
     · by_cases hqp : q = p
       · simp only [upd, hqp, if_true] at hq; injection hq with hq; subst hq; rw [hqp]
+        exact ⟨rfl, hm⟩
       · simp only [upd, hqp, if_false] at hq; exact h.wf q pt hq
 
 theorem step_peek (env : Env) (w : Watch) (st : State) (h : Rel env w st) (hsk : st.skip = none) :
@@ -189,7 +214,8 @@ theorem step_call (env : Env) (w : Watch) (st : State) (t : Nat) (args : List Na
     | none => exact ⟨_, rfl, h⟩
     | some ec =>
       simp only []
-      have hwf := h.wf e.p pt h1
+      have hwf := (h.wf e.p pt h1).1
+      have hexp := modeSafe_not_exposed env pt.spec t' (h.wf e.p pt h1).2
       have hstore : st.store t' = some e.o := by
         rw [h.inv.store t', expectAt_topFor, htop]
       unfold expectedConv at hec
@@ -201,10 +227,10 @@ theorem step_call (env : Env) (w : Watch) (st : State) (t : Nat) (args : List Na
         have hconv : ∀ c, conv e.o (env.tspec t').via c args kw = ec := by
           intro c
           rw [← hec, h3, hwf]
-          exact conv_installed e.p n pt.spec _ c args kw pre hpre
+          exact conv_installed e.p n pt.spec _ c args kw pre hpre hexp
         have : callAll env st t' args kw = [ec, ec, ec, ec] := by
           simp [callAll, hstore, Conv.all, hconv]
-        simp only [this, beq_self_eq_true, if_true]
+        simp only [this, convClause, beq_self_eq_true, if_true]
         exact ⟨_, rfl, h⟩
 
 /-- rebinding a name changes neither the store nor the open patches -/
@@ -290,7 +316,11 @@ theorem rel_resolve (env : Env) (w : Watch) (st : State) (p : Nat) (pt0 : Patche
   · by_cases hqp : q = p
     · simp only [setPatcher, upd, hqp, if_true] at hq
       injection hq with hq; subst hq; rw [hqp]
-      exact resolveP_wf st.bind p pt0 (h.wf p pt0 hpt)
+      exact ⟨resolveP_wf st.bind p pt0 (h.wf p pt0 hpt).1, by
+        have := (h.wf p pt0 hpt).2
+        unfold resolveP; split
+        · exact this
+        · exact this⟩
     · simp only [setPatcher, upd, hqp, if_false] at hq; exact h.wf q pt hq
 
 /-- the part of `enterWatch` that follows the resolution of the patcher's name -/
@@ -355,7 +385,7 @@ theorem enterCore_enter (env : Env) (w : Watch) (st : State) (p : Nat) (pt : Pat
   simp only [] at hstk
   subst hstk
   have hinv := inv_enter env st pt p h.inv hpt hopen
-  have hwf := h.wf p pt hpt
+  have hwf := (h.wf p pt hpt).1
   unfold enterCore enterThen
   simp only [present_eq env st pt.spec.target h.inv.store]
   unfold enter at hinv ⊢
@@ -409,7 +439,7 @@ theorem enterCore_start (env : Env) (w : Watch) (st : State) (p : Nat) (pt : Pat
   simp only [] at hstk
   subst hstk
   have hinv := inv_enter env st pt p h.inv hpt hopen
-  have hwf := h.wf p pt hpt
+  have hwf := (h.wf p pt hpt).1
   unfold enterCore start
   simp only [present_eq env st pt.spec.target h.inv.store]
   unfold enter at hinv ⊢
@@ -784,10 +814,161 @@ theorem step_stopall (env : Env) (w : Watch) (st : State) (h : Rel env w st) (hs
     simp only [hsim.1, hp2, bne_self_eq_false, Bool.false_eq_true, if_false]
     exact ⟨_, rfl, Or.inr hsim.2⟩
 
+/-! ### shape and frame: what every observation of the model satisfies, in any state -/
+
+theorem enter_res (env : Env) (pt : Patcher) (p : Nat) (st : State) :
+    (∃ x, (enter env pt p st).2 = .raised x) ∨ (∃ o, (enter env pt p st).2 = .entered o) := by
+  unfold enter
+  simp only []
+  split
+  · exact Or.inl ⟨_, rfl⟩
+  · exact Or.inr ⟨_, rfl⟩
+
+theorem exit_res' (env : Env) (pt : Patcher) (p : Nat) (exc : Bool) (st : State) :
+    (∃ x, (exit env pt p exc st).2 = .raised x) ∨ (exit env pt p exc st).2 = .exited exc := by
+  unfold exit
+  split
+  · exact Or.inl ⟨_, rfl⟩
+  · exact Or.inr rfl
+
+theorem stop_res (env : Env) (pt : Patcher) (p : Nat) (st : State) :
+    (∃ x, (stop env pt p st).2 = .raised x) ∨ (stop env pt p st).2 = .stopped ∨ (stop env pt p st).2 = .notActive := by
+  unfold stop
+  split
+  · rcases exit_res' env pt p false { st with active := st.active.erase p } with ⟨x, hx⟩ | hx
+    · refine Or.inl ⟨x, ?_⟩
+      generalize exit env pt p false { st with active := st.active.erase p } = r at hx ⊢
+      obtain ⟨a, b⟩ := r
+      simp only [] at hx
+      subst hx; rfl
+    · refine Or.inr (Or.inl ?_)
+      generalize exit env pt p false { st with active := st.active.erase p } = r at hx ⊢
+      obtain ⟨a, b⟩ := r
+      simp only [] at hx
+      subst hx; rfl
+  · exact Or.inr (Or.inr rfl)
+
+theorem stopall_res (env : Env) (i : Nat) : ∀ st : State,
+    (∃ x, (stopallLoop env i st).2 = .raised x) ∨ (stopallLoop env i st).2 = .unit := by
+  induction i with
+  | zero => intro st; exact Or.inr rfl
+  | succ i ih =>
+    intro st
+    unfold stopallLoop
+    split
+    · exact Or.inr rfl
+    · split
+      · exact Or.inl ⟨_, rfl⟩
+      · rename_i pt _
+        generalize stop env pt _ st = r
+        obtain ⟨st', r⟩ := r
+        cases r <;> first | exact ih _ | exact Or.inl ⟨_, rfl⟩
+
+theorem callAll_length (env : Env) (st : State) (t : Nat) (args : List Nat) (kw : List (Nat × Nat)) :
+    (callAll env st t args kw).length = 4 := by
+  unfold callAll
+  split
+  · simp [Conv.all]
+  · split <;> simp [Conv.all]
+
+theorem step_fits (env : Env) (st : State) (op : Op) : (step env st op).2.fits op = true := by
+  unfold step
+  cases hsk : st.skip with
+  | some qd =>
+    obtain ⟨q, d⟩ := qd
+    cases op with
+    | enter p => simp only []; split <;> rfl
+    | exit p exc =>
+      simp only []
+      split
+      · cases d <;> rfl
+      · rfl
+    | _ => rfl
+  | none =>
+    cases op with
+    | construct p s =>
+      simp only []
+      split
+      · rfl
+      · split <;> rfl
+    | enter p =>
+      simp only []
+      split
+      · rfl
+      · rename_i pt0 _
+        rcases enter_res env (resolveP st.bind pt0) p (setPatcher st p (resolveP st.bind pt0)) with ⟨x, hx⟩ | ⟨o, ho⟩
+        · generalize enter env (resolveP st.bind pt0) p (setPatcher st p (resolveP st.bind pt0)) = r at hx ⊢
+          obtain ⟨a, b⟩ := r
+          simp only [] at hx
+          subst hx; rfl
+        · generalize enter env (resolveP st.bind pt0) p (setPatcher st p (resolveP st.bind pt0)) = r at ho ⊢
+          obtain ⟨a, b⟩ := r
+          simp only [] at ho
+          subst ho; rfl
+    | exit p exc =>
+      simp only []
+      split
+      · rfl
+      · rename_i pt _
+        rcases exit_res' env pt p exc st with ⟨x, hx⟩ | hx <;> rw [hx] <;> rfl
+    | start p =>
+      simp only []
+      split
+      · rfl
+      · rename_i pt0 _
+        unfold start
+        rcases enter_res env (resolveP st.bind pt0) p (setPatcher st p (resolveP st.bind pt0)) with ⟨x, hx⟩ | ⟨o, ho⟩
+        · generalize enter env (resolveP st.bind pt0) p (setPatcher st p (resolveP st.bind pt0)) = r at hx ⊢
+          obtain ⟨a, b⟩ := r
+          simp only [] at hx
+          subst hx; rfl
+        · generalize enter env (resolveP st.bind pt0) p (setPatcher st p (resolveP st.bind pt0)) = r at ho ⊢
+          obtain ⟨a, b⟩ := r
+          simp only [] at ho
+          subst ho; rfl
+    | stop p =>
+      simp only []
+      split
+      · rfl
+      · rename_i pt _
+        rcases stop_res env pt p st with ⟨x, hx⟩ | hx | hx <;> rw [hx] <;> rfl
+    | stopall =>
+      simp only []
+      rcases stopall_res env st.active.length st with ⟨x, hx⟩ | hx <;> rw [hx] <;> rfl
+    | call t args kw =>
+      simp only [Res.fits, callAll_length, beq_self_eq_true]
+    | peek => rfl
+    | rebind a b => rfl
+
+theorem step_readOnly (env : Env) (st : State) (op : Op) (h : op.readOnly = true) : (step env st op).1.store = st.store := by
+  unfold step
+  cases hsk : st.skip with
+  | some qd => cases op <;> first | rfl | cases h
+  | none =>
+    cases op with
+    | construct p s =>
+      simp only []
+      split
+      · rfl
+      · split <;> rfl
+    | call t args kw => rfl
+    | peek => rfl
+    | rebind a b => rfl
+    | _ => cases h
+
+theorem peekAll_length (env : Env) (st : State) : (peekAll env st).length = env.targets.length := by
+  simp [peekAll]
+
+theorem observe_shape (env : Env) (st : State) (op : Op) : shapeOk env (observe env st op).2 = true := by
+  unfold shapeOk observe
+  simp only [peekAll_length, beq_self_eq_true, Bool.true_and]
+  exact step_fits env st op
+
 /-- the observer is either out of its claims (tainted) or in step with the model -/
 def Sim (env : Env) (w : Watch) (st : State) : Prop := w.tainted = true ∨ Rel env w st
 
-theorem sim_step (env : Env) (w : Watch) (st : State) (op : Op) (hc : op.constructible env.defaults = true) (h : Sim env w st) :
+theorem sim_step (env : Env) (w : Watch) (st : State) (op : Op) (hc : op.constructible env.defaults = true)
+    (hm : op.modeSafe env = true) (h : Sim env w st) :
     ∃ w', watchStep env w (observe env st op).2 = .ok w' ∧ Sim env w' (observe env st op).1 := by
   cases h with
   | inl ht => exact ⟨w, by unfold watchStep; simp [ht], Or.inl ht⟩
@@ -799,7 +980,7 @@ theorem sim_step (env : Env) (w : Watch) (st : State) (op : Op) (hc : op.constru
     | none =>
       cases op with
       | construct p s =>
-        obtain ⟨w', h1, h2⟩ := step_construct env w st p s hc h hsk
+        obtain ⟨w', h1, h2⟩ := step_construct env w st p s hc hm h hsk
         exact ⟨w', h1, Or.inr h2⟩
       | enter p => exact step_enter env w st p h hsk
       | exit p exc => exact step_exit env w st p exc h hsk
@@ -816,14 +997,26 @@ theorem sim_step (env : Env) (w : Watch) (st : State) (op : Op) (hc : op.constru
         obtain ⟨w', h1, h2⟩ := step_rebind env w st a b h hsk
         exact ⟨w', h1, Or.inr h2⟩
 
-theorem watchRun_ok (env : Env) (ops : List Op) (hc : ops.all (Op.constructible env.defaults) = true) (w : Watch) (st : State)
-    (h : Sim env w st) : ∃ w', watchRun env w (runFrom env st ops) = .ok w' := by
+theorem watchRun_ok (env : Env) (ops : List Op) (hc : ops.all (Op.constructible env.defaults) = true)
+    (hm : ops.all (Op.modeSafe env) = true) (w : Watch) (st : State)
+    (h : Sim env w st) : ∃ w', watchRun env w (peekAll env st) (runFrom env st ops) = .ok w' := by
   induction ops generalizing w st with
   | nil => exact ⟨w, rfl⟩
   | cons op ops ih =>
-    simp only [List.all_cons, Bool.and_eq_true] at hc
-    obtain ⟨w', h1, h2⟩ := sim_step env w st op hc.1 h
-    simp only [runFrom, watchRun, h1]
-    exact ih hc.2 _ _ h2
+    simp only [List.all_cons, Bool.and_eq_true] at hc hm
+    obtain ⟨w', h1, h2⟩ := sim_step env w st op hc.1 hm.1 h
+    have hshape := observe_shape env st op
+    have hframe : ((observe env st op).2.op.readOnly && (observe env st op).2.peeks != peekAll env st) = false := by
+      cases hro : op.readOnly with
+      | false => simp [observe, hro]
+      | true =>
+        have : (observe env st op).2.peeks = peekAll env st := by
+          show peekAll env (step env st op).1 = peekAll env st
+          unfold peekAll; rw [step_readOnly env st op hro]
+        simp [this]
+    simp only [runFrom, watchRun, h1, hshape, hframe, Bool.not_true, Bool.false_eq_true, if_false]
+    exact ih hc.2 hm.2 _ _ h2
+
+theorem initPeeks_eq (env : Env) : initPeeks env = peekAll env (init env) := rfl
 
 end AsynqModel.Mock
